@@ -583,6 +583,57 @@ pub fn run(tier: Tier) -> i32 {
             acc.violation("duplicate-member-handling", "duplicate members are not encoded according to the parsed value", || json!({"kind": "spelling", "text": text}));
         }
     }
+    // Json::to_writer with typed values (not a pre-built JSON tree) and with a sink that takes at
+    // most 5 bytes per call: the bytes delivered are the canonical form of the serialised value
+    {
+        struct Short(Vec<u8>, usize);
+        impl std::io::Write for Short {
+            fn write(&mut self, buf: &[u8]) -> std::io::Result<usize> {
+                let n = buf.len().min(self.1);
+                self.0.extend_from_slice(&buf[..n]);
+                Ok(n)
+            }
+            fn flush(&mut self) -> std::io::Result<()> {
+                Ok(())
+            }
+        }
+        let typed: Vec<(String, Value, Vec<u8>, Vec<u8>)> = {
+            let mut v = vec![];
+            for (n, l) in crate::props::c16::links(false).into_iter().step_by(29) {
+                if n.contains("other-field-named") {
+                    continue;
+                }
+                let tree = serde_json::to_value(&l).unwrap();
+                let mut whole = vec![];
+                let _ = guard(|| Json::to_writer(&mut whole, &l).is_ok());
+                let mut short = Short(vec![], 5);
+                let _ = guard(|| Json::to_writer(&mut short, &l).is_ok());
+                v.push((format!("link {n}"), tree, whole, short.0));
+                let mb = crate::world::sign_link(l, &[crate::keys::get("ed1")]);
+                let tree = serde_json::to_value(&mb).unwrap();
+                let mut whole = vec![];
+                let _ = guard(|| Json::to_writer(&mut whole, &mb).is_ok());
+                let mut short = Short(vec![], 1);
+                let _ = guard(|| Json::to_writer(&mut short, &mb).is_ok());
+                v.push((format!("signed block of link {n}"), tree, whole, short.0));
+            }
+            v
+        };
+        for (n, tree, whole, short) in &typed {
+            acc.evaluations += 2;
+            acc.nontrivial += 1;
+            let want = canon(tree).unwrap_or_default();
+            if *whole != want {
+                acc.violation("entry-points-disagree:Json::to_writer(typed value)", "Json::to_writer on a typed value does not write the canonical form of its serialisation", || json!({"kind": "typed-writer", "value": n}));
+            }
+            if *short != want {
+                acc.violation("entry-points-disagree:Json::to_writer(short writes)", "Json::to_writer does not deliver all bytes to a writer that accepts a few bytes per call", || json!({"kind": "typed-writer", "value": n, "delivered": short.len(), "expected": want.len()}));
+            }
+            if let Err(e) = structure_ok(whole) {
+                acc.violation("structure:typed-writer", &format!("Json::to_writer on a typed value: {e}"), || json!({"kind": "typed-writer", "value": n}));
+            }
+        }
+    }
     // two threads give identical bytes
     {
         let vals: Vec<Value> = grammar.iter().step_by(101).cloned().collect();
@@ -621,6 +672,7 @@ pub fn replay(case: &Value) -> Value {
             let is_int = v.as_i64().is_some() || v.as_u64().is_some();
             return json!({"canonical": r.clone().map(|b| String::from_utf8_lossy(&b).to_string()), "violation": if r.is_ok() != is_int { json!("number-handling") } else { Value::Null }});
         }
+        Some("typed-writer") | Some("environment") | Some("long-value") => return json!({"note": "re-run ./check C10 quick", "violation": null}),
         Some("spelling") => {
             if let Ok(v) = serde_json::from_str::<Value>(case["value_text"].as_str().unwrap_or("null")) {
                 check_spellings(&mut acc, &v);
